@@ -77,7 +77,8 @@ class BuiltinBroachingCodeGenerator(BroachingCodeGenerator):
 
     def produce_code(self, signature: Signature, closure_name: str) -> tuple[str, Mapping[str, object]]:
         builder = CodeBuilder()
-        namespace = BuiltinCascadeNamespace(occupied=signature.parameters.keys())
+        # nested coercer can have the same name as the closure itself
+        namespace = BuiltinCascadeNamespace(occupied={*signature.parameters.keys(), closure_name})
         state = self._create_state(namespace=namespace)
 
         namespace.add_outer_constant("_closure_signature", signature)
